@@ -4,7 +4,7 @@ import seqfam, vlib, exprgen
 from exprgen import Gen, sql, col, num, strlit
 
 PIPE = os.path.join(vlib.VERIF, "spec", "pipe")
-ASSUME = ["single producer; synchronous sink (asynchronous sinks are explicitly unordered)", "the result channel is drained continuously and at most 40 rows are outstanding (capacity 100)",
+ASSUME = ["bracket access map['key'] with keys containing spaces, colons and keywords, but no dots (a quoted key with a dot is not resolved by the engine: noted, outside the documented examples)", "single producer; synchronous sink (asynchronous sinks are explicitly unordered)", "the result channel is drained continuously and at most 40 rows are outstanding (capacity 100)",
           "WHERE predicates are drawn from the envelope in which the engine follows SQL semantics (C06 decides expressions; deviations are pinned there)",
           "default overflow strategy with a 1000-row input buffer, or the expand strategy with a ceiling above the row count: no input row is dropped at these volumes"]
 
@@ -22,7 +22,18 @@ def select_items(rng, g):
             items.append({"al": "a%d" % k, "e": col(rng.choice(["x", "y", "s"]))})
         elif r < 0.55:
             items.append({"al": "p%d" % k, "e": {"t": "path", "p": ["o", "f"]}})
-        elif r < 0.65:
+        elif r < 0.63:
+            # bracket access with keys that contain separators of the engine's own field specs; aliased or named by its text
+            e = {"t": "path", "p": ["cfg", rng.choice(["net:host", "a b", "k", "as"])], "br": 1}
+            un = rng.random() < 0.5
+            al = sql(e) if un else "b%d" % k
+            if not any(it["al"] == al for it in items):
+                items.append({"al": al, "e": e, "unaliased": 1 if un else 0})
+        elif r < 0.68:
+            e = {"t": "path", "p": ["o", "f"]}
+            if not any(it["al"] == "o.f" for it in items):
+                items.append({"al": "o.f", "e": e, "unaliased": 1})       # an un-aliased nested path is reported under its text
+        elif r < 0.72:
             items.append({"al": "l%d" % k, "e": strlit(rng.choice(["lit", "a b", "LIMIT"]))})
         elif r < 0.85:
             e = g.numexpr(2)
@@ -41,7 +52,7 @@ def mk(rng, g, star, where_kind, nrows, mode, burst):
     else:
         items = select_items(rng, g)
         meta["sel"] = items
-        txt = "SELECT " + ", ".join(it["al"] if (it["e"]["t"] == "col" and it["e"]["c"] == it["al"]) else "%s AS %s" % (sql(it["e"]), it["al"]) for it in items) + " FROM stream"
+        txt = "SELECT " + ", ".join(it["al"] if (it["e"]["t"] == "col" and it["e"]["c"] == it["al"]) else sql(it["e"]) if it.get("unaliased") else "%s AS %s" % (sql(it["e"]), it["al"]) for it in items) + " FROM stream"
     if where_kind:
         g.in_where = True
         w = g.flatchain(rng.choice([1, 2, 3])) if where_kind == "flat" else g.pred(2)
@@ -49,6 +60,9 @@ def mk(rng, g, star, where_kind, nrows, mode, burst):
         meta["where"] = w
         txt += " WHERE " + sql(w)
     rows = [g.row(i + 1) for i in range(nrows)]
+    for r in rows:
+        if rng.random() < 0.8:
+            r["cfg"] = {k: rng.choice([1, "h1", {"$f": 2.5}]) for k in ["net:host", "a b", "k", "as"] if rng.random() < 0.8}
     sc = {"meta": meta, "sql": txt, "rows": rows, "chan": mode != "sync"}
     if mode == "sync":
         sc["mode"] = "sync"
@@ -87,6 +101,11 @@ def run(tier):
         meta = {"fam": "direct", "star": 0, "chan": 0, "sel": [{"al": "id", "e": col("id")}], "where": w, "profile": "where_mixedkind"}
         sc = {"meta": meta, "sql": "SELECT id FROM stream WHERE " + sql(w), "rows": [gm.row(j + 1) for j in range(rng.choice([5, 8]))], "chan": False}
         if i % 2: sc["mode"] = "sync"
+        scen.append(sc)
+    # a producer that re-uses one map object for all its rows: every result stays what it was when it was delivered
+    for i in range(60 if quick else 600):
+        sc = mk(rng, g, i % 2 == 0, [None, "flat"][i % 2], rng.choice([4, 6]), "sync" if i % 3 else "emit", False)
+        sc["reuse"] = True
         scen.append(sc)
     # ordering: rows handed in without waiting; sink and channel must see the results in emission order
     for i in range(60 if quick else 600):
